@@ -64,7 +64,7 @@ TRBind      == Env("rbind", RBind(Ev.who))
 TPodDelete  == Env("poddelete", PodDelete)
 TPodReplace == Env("podreplace", PodReplace(Ev.node, Ev.ready))
 TPodReady   == Env("podready", PodReady)
-TTick       == IsEvent("tick") /\ Ev.applied /\ Tick(Ev.n) /\ ObsEnv(Ev)
+TTick       == Env("tick", Tick(Ev.n))
 TRestart    == IsEvent("restart") /\ Restart /\ ObsEnv(Ev)
 
 \* what the transcription predicts for this reconcile (diagnostic)
